@@ -7,6 +7,7 @@ import re
 import inst_check
 import inst_common as ic
 from common import COQ, Check, coq_eval, sh
+from common import clist as clist_, copt as copt_, cz as cz_
 
 PRELUDE = """From Coq Require Import List ZArith Bool Arith.
 From SC Require Import Base.Res Inst.Heap Inst.ClassTable Inst.Model Inst.Canon Inst.Abs Inst.SpecHelpers Corr.Enc Corr.InstCorr Corr.SpecCorr.
@@ -20,6 +21,66 @@ TRUSTED = inst_check.TRUSTED + [
 ]
 
 
+SPEC_ONLY_FOR_PLAIN = False   # inst_common / Model.v handle plain subclasses since verif "plain (undecorated) subclass"
+
+
+def has_plain(table):
+    return any(c.get("kind", "spec") != "spec" for c in table)
+
+
+def c_table2(table):
+    """like inst_common.c_table, but renders PLAIN (undecorated) subclasses the way
+    coq/Inst/ClassTable.v means them: the attributes (and defaults) of the spec class
+    whose metadata they inherit (c_owner), plus c_overrides = the class attributes
+    that override inherited defaults along the chain of plain classes"""
+    from common import cbool, clist, copt
+    res, heap0 = ic.resolve_table(table)
+    by_id = {c["id"]: c for c in res}
+
+    def attr_terms(c):
+        out = []
+        for a in c["rattrs"]:
+            out.append("mkattr {aid} {ty} {dflt} {fac} {owner} {init} {dnc} {prep} {prepi} {inv}".format(
+                aid=a["aid"], ty=ic.c_ty(a["ty"]), dflt=a["default_c"],
+                fac=copt(a.get("factory"), ic.c_fac), owner=a["owner"], init=cbool(a.get("init", True)),
+                dnc=cbool(a.get("dnc", False)), prep=copt(a.get("prepare"), ic.c_fn),
+                prepi=copt(a.get("prepare_item"), ic.c_fn), inv=clist(a.get("inv_by", []))))
+        return out
+    terms = []
+    for c in res:
+        if c.get("kind", "spec") == "spec":
+            owner, overrides, attrs = c, [], attr_terms(c)
+        else:
+            chain, owner = [], c
+            while owner.get("kind", "spec") != "spec":
+                chain.append(owner)
+                owner = by_id[owner["base"]]
+            overridden = []
+            for k in chain:
+                for a in k["attrs"]:
+                    if "override" in a and a["aid"] not in overridden:
+                        overridden.append(a["aid"])
+            eff = {a["aid"]: a["default_c"] for a in c["rattrs"]}
+            overrides = ["(%d, %s)" % (aid, eff[aid]) for aid in overridden]
+            attrs = attr_terms(owner)
+        terms.append("mkcls {id} {attrs} {frozen} false {key} {mro} {owner} {ov} {pi} {pc}".format(
+            id=c["id"], attrs=clist(attrs), frozen=cbool(owner["rfrozen"]), key=copt(owner["rkey"]),
+            mro=clist(c["mro"]), owner=owner["id"], ov=clist(overrides),
+            pi=copt(c.get("post_init"), ic.c_fn), pc=copt(c.get("post_copy"), ic.c_fn)))
+    return clist(terms), clist(heap0, ic.c_obj)
+
+
+def c_case2(table, ops, seen0, seen):
+    res, _ = ic.resolve_table(table)
+    if all("overrides" in c for c in res):
+        # inst_common renders plain subclasses itself (c_owner / c_overrides)
+        return ic.c_case(table, ops, seen0, seen)
+    ct, heap0 = c_table2(table)
+    ops_t = clist_(ops, lambda p: f"({ic.c_op(p[0])}, {copt_(p[1])})")
+    seen_t = clist_(seen, lambda o: f"({clist_(o[0], cz_)}%Z, {ic.c_graph(o[1])})")
+    return f"mkic {ct} {heap0} {ops_t} {ic.c_graph(seen0)} {seen_t}"
+
+
 def evaluate(pid, cases, sel, tag="c", shard=150):
     """returns [(index, code, observation)] for non-zero codes (1: model differs only, 2: spec violated), logs"""
     terms, obs, broken = [], [], []
@@ -29,9 +90,14 @@ def evaluate(pid, cases, sel, tag="c", shard=150):
             broken.append((i, err))
             r = (([], []), [])
         obs.append(r)
-        terms.append(ic.c_case(case["table"], case["ops"], r[0], r[1]) if err is None
-                     else ic.c_case(case["table"], [], ([], []), []))
-    bad, logs = coq_eval(pid, PRELUDE, f"(check_full {sel})", terms, shard=shard, tag=tag, case_type="icase")
+        # tables with plain subclasses: the instance model does not construct such instances
+        # (inst_common cannot render them either), so only the documentation oracle judges them
+        spec_only = has_plain(case["table"]) and SPEC_ONLY_FOR_PLAIN
+        mk = c_case2 if spec_only else ic.c_case
+        term = mk(case["table"], case["ops"], r[0], r[1]) if err is None else mk(case["table"], [], ([], []), [])
+        terms.append(f"({'true' if spec_only else 'false'}, {term})")
+    prelude = PRELUDE + f"Definition chk (p : bool * icase) : nat := if fst p then check_spec_case {sel} (snd p) else check_full {sel} (snd p).\n"
+    bad, logs = coq_eval(pid, prelude, "chk", terms, shard=shard, tag=tag, case_type="bool * icase")
     out = [(i, code, obs[i]) for i, code in bad]
     for i, err in broken:
         logs.append(f"case {i}: harness could not run the implementation: {err}")
@@ -68,7 +134,7 @@ def spec_view(pid, case):
     r, err = ic.run_case(case)
     if r is None:
         return "implementation could not be run: " + str(err)
-    term = ic.c_case(case["table"], case["ops"], r[0], r[1])
+    term = (c_case2 if has_plain(case["table"]) else ic.c_case)(case["table"], case["ops"], r[0], r[1])
     path = f"{COQ}/Corr/gen/{pid}_view.v"
     open(path, "w").write(PRELUDE + f"Definition c : icase := {term}.\nEval vm_compute in (spec_view c).\n"
                           "Eval vm_compute in (map fst (model_trace c)).\n")
